@@ -94,6 +94,9 @@ func (s *Spec) GenValue(t *Type, r *HashRng, leafPath string, sink FileSink, dep
 		return m
 	case KArray:
 		n := r.Intn(s.MaxLen + 1)
+		if len(s.LenChoices) > 0 && depth == 0 {
+			n = s.LenChoices[r.Intn(len(s.LenChoices))]
+		}
 		out := make([]interface{}, 0, n)
 		for i := 0; i < n; i++ {
 			out = append(out, s.GenValue(t.Elem, r, fmt.Sprintf("%s.%d", leafPath, i), sink, depth+1))
